@@ -15,7 +15,9 @@ import PV.C17.Model
   length is used as its width (kept here).
 
   Results are `Res`: `panic` for every Rust panic (`String::insert` out of range, `i32` overflow in
-  a build with overflow checks, a `format!` precision above `u16::MAX`), `err e` for `Err(FormatSpecError)`, `ok`.
+  a build with overflow checks), `err e` for `Err(FormatSpecError)`, `ok`.  (A float precision above
+  `u16::MAX` used to panic inside `format!`; `float.rs` now clamps the digits it asks for, see
+  `PV.C17.maxFloatDigits`.)
 
   The float helpers of `literal/src/float.rs` (`format_fixed`, `format_exponent`,
   `format_general`, `to_string`) are `PV.C17.*` on top of the exact decimal arithmetic `PV.Dec`;
@@ -393,19 +395,6 @@ def mul100 (bits : Nat) : Nat :=
   let (num, den) := PV.Dec.ratOf m e
   PV.Dec.ofRat false (num * 100) den
 
-/-- `format!` rejects (panics on) a precision argument above `u16::MAX` (rustc ≥ 1.87). -/
-def precOk (p : Nat) : Bool := p ≤ 65535
-
-/-- precision arguments `format_general` hands to `format!`, all of which must be `≤ u16::MAX` -/
-def generalPrecOk (precision bits : Nat) (alwaysShowsFract : Bool) : Bool :=
-  let precision := max precision 1          -- `let precision = precision.max(1);` (fix 668a737)
-  if !PV.Dec.isFinite bits then true else
-  if !precOk (precision - 1) then false else
-  let (_, exponent) := PV.Dec.toExpL bits (precision - 1)
-  if exponent < -4 ∨ exponent + (if alwaysShowsFract then 1 else 0) ≥ (precision : Int) then
-    precOk (precision + 1)
-  else precOk ((precision : Int) - 1 - exponent).toNat
-
 def sNanPct : List Nat := [110, 97, 110, 37]
 def sInfPct : List Nat := [105, 110, 102, 37]
 def sNan : List Nat := [110, 97, 110]
@@ -415,30 +404,25 @@ def sInf : List Nat := [105, 110, 102]
 def floatMagnitude (spec : FormatSpec) (mag : Nat) : Res (List Nat) :=
   let precision := spec.precision.getD 6
   match spec.ftype with
-  | some (.fixed up) =>
-    if PV.Dec.isFinite mag ∧ !precOk precision then .panic
-    else .ok (PV.C17.formatFixed precision mag up spec.alt)
+  | some (.fixed up) => .ok (PV.C17.formatFixed precision mag up spec.alt)
   | some .decimal | some .binary | some .octal | some (.hex _) | some .string | some .character
   | some (.number true) => .err .unknownFormatCode
   | some (.general up) | some (.number up) =>
     let precision := if precision = 0 then 1 else precision
-    if !generalPrecOk precision mag false then .panic
-    else .ok (PV.C17.formatGeneral precision mag up spec.alt false)
-  | some (.exponent up) =>
-    if PV.Dec.isFinite mag ∧ !precOk precision then .panic
-    else .ok (PV.C17.formatExponent precision mag up spec.alt)
+    .ok (PV.C17.formatGeneral precision mag up spec.alt false)
+  | some (.exponent up) => .ok (PV.C17.formatExponent precision mag up spec.alt)
   | some .percentage =>
     if PV.Dec.isNan mag then .ok sNanPct
     else if PV.Dec.isInf mag then .ok sInfPct
-    else if !precOk precision then .panic
-    else .ok (PV.Dec.toFixedL (mul100 mag) precision ++ PV.C17.decimalPointOrEmpty precision spec.alt ++ [37])
+    else
+      -- `float::format_fixed(precision, magnitude * 100.0, Case::Lower, false)`, then `{result}{point}%`
+      .ok (PV.C17.formatFixed precision (mul100 mag) false false ++
+        PV.C17.decimalPointOrEmpty precision spec.alt ++ [37])
   | none =>
     if PV.Dec.isNan mag then .ok sNan
     else if PV.Dec.isInf mag then .ok sInf
     else match spec.precision with
-      | some p =>
-        if !generalPrecOk p mag true then .panic
-        else .ok (PV.C17.formatGeneral p mag false spec.alt true)
+      | some p => .ok (PV.C17.formatGeneral p mag false spec.alt true)
       | none => .ok (PV.C17.toString mag)
 
 /-- `format_float` -/
